@@ -31,6 +31,7 @@ RULE = ('always-run shape designs (every 2-input gate on identical arguments at 
         'pass pairs x random initial state and input sequence; a case = (design, pass sequence); '
         'distinct by (design dump, passes, stimulus); non-trivial when the pass sequence changed the '
         'netlist or was rejected by its precondition as predicted')
+IMPORTS_SPEC = 'From PyRTL Require Import Netlist.Sem Netlist.WFDefs Netlist.SpecHarness.'
 IMPORTS = ('From PyRTL Require Import Netlist.Sem Netlist.WFDefs Netlist.SpecHarness Pass.Lower '
            'Pass.LowerHarness.')
 COQ_TARGETS = ['theories/Netlist/SpecHarness.vo', 'theories/Pass/LowerHarness.vo']
@@ -55,6 +56,9 @@ PASSES = {1: 'nand_synth', 2: 'and_inverter_synth', 3: 'two_way_concat', 4: 'one
 OPCH = {119: 'w', 126: '~', 38: '&', 124: '|', 94: '^', 110: 'n', 43: '+', 45: '-', 42: '*', 60: '<',
         62: '>', 61: '=', 120: 'x', 99: 'c', 115: 's', 114: 'r', 109: 'm', 64: '@'}
 ALLOWED = {1: set('~nrwcsm@'), 2: set('~&rwcsm@')}
+# documented precondition of the gate-basis passes: a post-synthesis / decomposed block, i.e. only
+# gate primitives (including the basis gates themselves) and structural ops; the other passes accept any block
+DOC_PRE = {1: set('&|^~n' + 'rwcsm@'), 2: set('&|^~n' + 'rwcsm@')}
 LOGIC_OPS = ['&', '|', '^', '~', 'nand', 'concat', 'slice', 'index', 'const', 'trunc', 'zext', 'sext',
              'memrd', 'romrd']
 
@@ -190,7 +194,7 @@ def directed_design(rng, j):
     return pyrtl.working_block()
 
 
-N_SHAPES = 8
+N_SHAPES = 11
 
 
 def raw_select(block, src, idx, name):
@@ -217,7 +221,9 @@ def shapes_design(j):
     """always-run directed designs (both tiers), exhaustive stimulus:
        0..4 gates with identical arguments (1-bit, multi-bit, on inputs, on intermediates, produced by
             CSE in optimize(), post-synthesis);  5..7 full-width permuting selects (reverse / rotate /
-            swizzle / duplicates) of Inputs and Registers next to identity, partial and 1-bit selects"""
+            swizzle / duplicates) of Inputs and Registers next to identity, partial and 1-bit selects;
+       8..10 constant operands in every position of n-ary concats, selects of constants, constants through
+            gates, muxes with constant data"""
     pyrtl.reset_working_block()
     block = pyrtl.working_block()
     if j == 0:
@@ -248,6 +254,65 @@ def shapes_design(j):
         b = pyrtl.Input(3, 'b')
         same_arg_gates(a, 'in', extra=b)
         same_arg_gates(a & b, 'x')
+    elif j == 8:
+        # constant operands in EVERY position of n-ary concats (3..5 operands): all-zero, all-ones and
+        # arbitrary Consts least-significant, in the middle and most-significant; several at once
+        a = pyrtl.Input(2, 'a')
+        b = pyrtl.Input(3, 'b')
+        consts = {'z': lambda w: pyrtl.Const(0, bitwidth=w), 'o': lambda w: pyrtl.Const((1 << w) - 1, bitwidth=w),
+                  'x': lambda w: pyrtl.Const(5 & ((1 << w) - 1), bitwidth=w)}
+        k = 0
+        for cn, mk in sorted(consts.items()):
+            for pos, parts in (('ls', lambda c: (a, b, c)), ('mid', lambda c: (a, c, b)), ('ms', lambda c: (c, a, b))):
+                for cw in (1, 4):
+                    parts_ = parts(mk(cw))
+                    o = pyrtl.Output(sum(len(q) for q in parts_), 'c3_%s_%s_%d' % (cn, pos, cw))
+                    o <<= pyrtl.concat(*parts_)
+                    k += 1
+        z, o1, x = consts['z'], consts['o'], consts['x']
+        for nm, parts_ in (('c4_zz_ls', (a, b, z(2), z(3))), ('c4_z_ms_ls', (z(2), a, b, z(1))),
+                           ('c4_zmid', (a, z(2), z(1), b)), ('c5_mix', (z(1), a, o1(2), b, z(2))),
+                           ('c5_alt', (a, z(1), b, x(3), z(4))), ('c4_ones_ls', (b, a, o1(1), o1(2))),
+                           ('c3_allconst', (z(2), x(3), z(1))), ('c4_same', (a, z(2), a, z(2)))):
+            o = pyrtl.Output(sum(len(q) for q in parts_), nm)
+            o <<= pyrtl.concat(*parts_)
+    elif j == 9:
+        # selects of constants (reverse, duplicates, partial), constants through gates
+        a = pyrtl.Input(3, 'a')
+        c = pyrtl.Const(0b1011, bitwidth=4)
+        o = pyrtl.Output(4, 'k_rev')
+        o <<= c[::-1]
+        o = pyrtl.Output(2, 'k_part')
+        o <<= c[1:3]
+        o = pyrtl.Output(1, 'k_bit')
+        o <<= c[3]
+        raw_select(block, c, [0, 0, 3, 1, 2], 'k_dup')
+        raw_select(block, pyrtl.Const(0, bitwidth=3), [2, 1, 0], 'k_zero')
+        o = pyrtl.Output(3, 'g_and')
+        o <<= a & pyrtl.Const(5, bitwidth=3)
+        o = pyrtl.Output(3, 'g_or0')
+        o <<= a | pyrtl.Const(0, bitwidth=3)
+        o = pyrtl.Output(3, 'g_xor1')
+        o <<= a ^ pyrtl.Const(7, bitwidth=3)
+        o = pyrtl.Output(3, 'g_nand')
+        o <<= a.nand(pyrtl.Const(6, bitwidth=3))
+        o = pyrtl.Output(7, 'k_cat_sel')
+        o <<= pyrtl.concat(a[0], c[::-1], a[1:])
+    elif j == 10:
+        # muxes with constant data / constant select, feeding concats with constants
+        a = pyrtl.Input(3, 'a')
+        s = pyrtl.Input(1, 's')
+        c5 = pyrtl.Const(5, bitwidth=3)
+        o = pyrtl.Output(3, 'm_ct')
+        o <<= pyrtl.select(s, c5, a)
+        o = pyrtl.Output(3, 'm_cf')
+        o <<= pyrtl.select(s, a, pyrtl.Const(0, bitwidth=3))
+        o = pyrtl.Output(3, 'm_cc')
+        o <<= pyrtl.select(s, c5, pyrtl.Const(2, bitwidth=3))
+        o = pyrtl.Output(3, 'm_cs')
+        o <<= pyrtl.select(pyrtl.Const(1, bitwidth=1), a, c5)
+        o = pyrtl.Output(8, 'm_cat')
+        o <<= pyrtl.concat(pyrtl.select(s, a, c5), pyrtl.Const(0, bitwidth=2), pyrtl.select(s, c5, a))
     else:
         a = pyrtl.Input(4 if j < 7 else 3, 'a')
         n = len(a)
@@ -360,13 +425,15 @@ def make_stimulus(rng, block, ncycles, exhaustive):
 # ----------------------------------------------------------------------------
 # running the real passes
 
-def run_real(block, ps, views=None, watch=None, observe=None):
+def run_real(block, ps, views=None, watch=None, observe=None, opsets=None):
     """returns (raised_at, error) ; raised_at = index of the pass that raised PyrtlError, or None.
     watch = (decoy block, its fingerprint, list): the passes that changed the decoy are appended;
     observe(k) is called after every pass but the last (the caller observes the final block itself)"""
     for k, p in enumerate(ps):
         if views is not None and k == len(ps) - 1:
             views.append(real_view(block))
+        if opsets is not None:
+            opsets.append(''.join(sorted({n.op for n in block.logic})))
         try:
             getattr(pyrtl, PASSES[p])(block=block)
         except (pyrtl.PyrtlError, pyrtl.PyrtlInternalError) as e:
@@ -586,6 +653,7 @@ def run(ctx):
     decoy_fp = fingerprint(decoy)
     cases = []
     exprs = []
+    spec_exprs = []
     extra_exprs = []       # spec_case of real results (sampled)
     extra_ref = []
     sample_real = 2 if quick else 3
@@ -607,6 +675,7 @@ def run(ctx):
             pss = pass_sequences(ctx, rng, kind, i)
             stim = '%d %s %s %s %s' % (dflt, dump.regmap(regmap), dump.memmap(memmap),
                                         dump.inputs(inputs), nlx.pairs(probes))
+            spec_exprs.append('spec_case %s %s' % (dump.coq(), stim))
             exprs.append('c09_multi [%s] %s %s' % (
                 '; '.join('[' + '; '.join(str(p) for p in ps) + ']' for ps in pss), dump.coq(), stim))
             snap = snapshot(block)
@@ -640,8 +709,9 @@ def run(ctx):
                         except (pyrtl.PyrtlError, pyrtl.PyrtlInternalError) as e:
                             stp['sane'], stp['sane_err'] = False, 'Simulation: ' + str(e)
                     steps.append(stp)
+                opsets = []
                 raised_at, err = run_real(block, ps, views, (decoy, decoy_fp, culprit) if explicit else None,
-                                          observe)
+                                          observe, opsets)
                 if explicit:
                     ctx.count('block_argument', 'explicit block= with a decoy working block')
                     if fingerprint(decoy) != decoy_fp:
@@ -656,7 +726,7 @@ def run(ctx):
                     pyrtl.set_working_block(block, no_sanity_check=True)
                 else:
                     ctx.count('block_argument', 'working block')
-                r = {'ps': ps, 'steps': steps, 'before_last': views[0] if views else None, 'raised_at': raised_at, 'err': err, 'sane': None, 'sane_err': None,
+                r = {'ps': ps, 'steps': steps, 'opsets': opsets, 'before_last': views[0] if views else None, 'raised_at': raised_at, 'err': err, 'sane': None, 'sane_err': None,
                      'trace': None, 'mem': None}
                 if raised_at is None:
                     try:
@@ -715,8 +785,16 @@ def run(ctx):
                 ctx.count('ops_before', n[0])
             ctx.count('registers', len(regs))
             ctx.count('memories', len(mems))
-    results = ctx.coq_eval(exprs, IMPORTS, tag='c09', shard=3 if quick else 8, jobs=16)
-    extra_res = ctx.coq_eval(extra_exprs, IMPORTS, tag='c09real', shard=12, jobs=14) if extra_exprs else []
+    model_ok = True
+    try:
+        results = ctx.coq_eval(exprs, IMPORTS, tag='c09', shard=3 if quick else 8, jobs=16)
+        extra_res = ctx.coq_eval(extra_exprs, IMPORTS, tag='c09real', shard=12, jobs=14) if extra_exprs else []
+    except Exception as e:      # the model no longer builds (e.g. an untranslatable rule): the SEARCH must still run
+        model_ok = False
+        ctx.model_mismatch('Pass/Lower.v model could not be evaluated: %s' % str(e)[-500:], {})
+        spec_only = ctx.coq_eval(spec_exprs, IMPORTS_SPEC, tag='c09spec', shard=6 if quick else 12, jobs=16)
+        results = [[[[1] * len(HYPS)] + sr] for sr in spec_only]
+        extra_res, extra_ref = [], []
     extra_by = {}
     for (ci, si, nms), res in zip(extra_ref, extra_res):
         extra_by[(ci, si)] = (nms, res)
@@ -729,7 +807,7 @@ def run(ctx):
             ctx.model_mismatch('sanity_block/wfb false on a design accepted by sanity_check()',
                                {'design': c['i'], 'kind': c['kind'], 'nets': c['nets']})
         # decidable hypotheses of the Props/C09.v theorems, evaluated on this design
-        for hname, hval in zip(HYPS, orig[0]):
+        for hname, hval in (zip(HYPS, orig[0]) if model_ok else []):
             ctx.count('theorem_hypotheses', '%s:%s' % (hname, 'holds' if hval == 1 else 'FAILS'))
             if hval != 1:
                 ctx.model_mismatch('theorem hypothesis %s is false on a design accepted by sanity_check()' % hname,
@@ -740,8 +818,12 @@ def run(ctx):
         orig_w, orig_n = c['orig']
         for si, (ps, r) in enumerate(zip(c['pss'], c['runs'])):
             psn = [PASSES[p] for p in ps]
-            flags, mw, morder, mn, mspec = model_view(res[1 + si], names)
-            pre_ok = flags[0] == 1
+            if model_ok:
+                flags, mw, morder, mn, mspec = model_view(res[1 + si], names)
+                pre_ok = flags[0] == 1
+            else:
+                flags = mw = morder = mn = mspec = None
+                pre_ok = None
             rep = {'seed': ctx.seed, 'tier': ctx.tier, 'design': c['i'], 'kind': c['kind'],
                    'passes': psn, 'nets_before': c['nets'], 'inputs': c['inputs'],
                    'regmap': c['regmap'], 'memmap': c['memmap'], 'default_value': c['dflt']}
@@ -771,14 +853,25 @@ def run(ctx):
                                        '%s changed behaviour (intermediate step %d of %s)' % (pre, stp['k'] + 1, psn),
                                        dict(rep, passes=pre))
                 ctx.count('intermediate_steps_checked', len(pre))
-            # ---- precondition tie
+            # ---- search: a pass must accept every block that meets its documented precondition
             if r['raised_at'] is not None:
-                ctx.count('precondition', 'rejected:' + PASSES[ps[r['raised_at']]])
-                if pre_ok:
+                k = r['raised_at']
+                pk = ps[k]
+                ctx.count('precondition', 'rejected:' + PASSES[pk])
+                ops_k = set(r['opsets'][k]) if k < len(r['opsets']) else set()
+                prev_ok = all(stp['sane'] for stp in r['steps'][:k])
+                if prev_ok and ops_k <= DOC_PRE.get(pk, ops_k):
+                    ctx.spec_violation('%s:rejects-legal-block' % PASSES[pk],
+                                       '%s raised %r on a well-formed block that meets its documented precondition '
+                                       '(ops present: %s) at step %d of %s' % (
+                                           PASSES[pk], (r['err'] or '')[:150], ''.join(sorted(ops_k)), k + 1, psn),
+                                       dict(rep, passes=psn[:k + 1], ops_before_the_pass=''.join(sorted(ops_k))))
+                # ---- precondition tie
+                if model_ok and pre_ok:
                     ctx.model_mismatch('real %s raised (%s) but the model precondition holds' % (psn, r['err']),
                                        rep)
                 continue
-            if not pre_ok:
+            if model_ok and not pre_ok:
                 ctx.model_mismatch('model precondition false but real %s did not raise' % psn, rep)
                 continue
             ctx.count('precondition', 'accepted')
@@ -812,7 +905,8 @@ def run(ctx):
                     detail = '%s producer' % detail[0][0]
                 ctx.spec_violation(sig, 'postcondition of %s violated after %s: %s %s' % (
                     PASSES[last], psn, tag, detail), dict(rep, nets_after=[str(n) for n in rn]))
-            ctx.count('postcondition_model', '%s:%d' % (PASSES[last], flags[1]))
+            if model_ok:
+                ctx.count('postcondition_model', '%s:%d' % (PASSES[last], flags[1]))
             if r['trace'] is not None:
                 bad = None
                 for t, (a, b) in enumerate(zip(spec_trace, r['trace'])):
@@ -830,6 +924,8 @@ def run(ctx):
                         psn, bad[0], bad[1], bad[2], bad[3]),
                         dict(rep, first_difference={'cycle': bad[0], 'wire': bad[1], 'expected': bad[2],
                                                     'got': bad[3]}))
+            if not model_ok:
+                continue
             # ---- tie: well-formedness verdicts
             if (flags[2] == 1) != bool(r['sane']):
                 ctx.model_mismatch('sanity verdicts differ after %s: model %d real %s (%s)' % (
